@@ -191,7 +191,9 @@ def hyp(case):
   xb = (xa[::-1] * 1.5 + 0.25).astype(np.float32)
   pop.append((pop[0][0], fedjax.ClientDataset({'x': xb, 'y': (xb.astype(np.float64) @ c1['w'] + c1['b']).astype(np.float32),
                                                'domain_id': pop[0][1].raw_examples['domain_id']}), pop[0][2]))
-  cohorts = {'A': [0], 'B': [1], 'AB': [0, 1], 'AC': [0, 2], 'ABD': [0, 1, 3], 'C': [2], 'A2': [4], 'A2B': [4, 1]}
+  # BA / DBA: the same clients listed in an order that is NOT sorted by client id
+  cohorts = {'A': [0], 'B': [1], 'AB': [0, 1], 'AC': [0, 2], 'ABD': [0, 1, 3], 'C': [2], 'A2': [4], 'A2B': [4, 1],
+             'BA': [1, 0], 'DBA': [3, 1, 0]}
   stats = {'states': 1, 'transitions': 0, 'untouched': 0}
   outs = set()
   p_init = [algos.nparams(p) for p in systems.CLUSTER_INITS[:k]]
@@ -271,7 +273,13 @@ def mimelite(case):
   _, c_ref = algos.make_opt('sgd', lr)
   hparams = systems._hp(2, 1, None, 0)
   pop = algos.population([2, 3, 0, 4], case.get('seed', 0))
-  cohorts = {'A': [0], 'B': [1], 'AB': [0, 1], 'AC': [0, 2], 'D': [3], 'C': [2]}
+  # H: one example with finite features of magnitude 1e10 - its single-step update is finite (about 1e20) but the SQUARE
+  # of its norm is not representable in float32; nothing above the bound may reach the aggregate
+  import fedjax
+  import jax
+  pop.append((b'huge', fedjax.ClientDataset({'x': np.asarray([[1e10, -1e10]], np.float32), 'y': np.asarray([1.0], np.float32),
+                                             'domain_id': np.zeros(1, np.int32)}), jax.random.PRNGKey(77)))
+  cohorts = {'A': [0], 'B': [1], 'AB': [0, 1], 'AC': [0, 2], 'D': [3], 'C': [2], 'H': [4], 'AH': [0, 4]}
   stats = {'states': 1, 'transitions': 0, 'clipped': 0}
   outs = set()
 
@@ -297,7 +305,7 @@ def mimelite(case):
         require(cn <= dn * (1 + 1e-5) + 1e-7, 'client %r: clipping increased the norm' % cid, dn, cn, case=nc)
         if dn > clip * (1 + 1e-4):
           stats['clipped'] += 1
-      if base == 'sgd':
+      if base == 'sgd' and 'H' not in name:
         tot = {kk: np.zeros_like(v) for kk, v in p_old.items()}
         ntot = 0.0
         for cid, ds, key in cohort:
@@ -313,7 +321,8 @@ def mimelite(case):
       stats['transitions'] += 1
       stats['states'] += 1
       outs.add(core.digest(algos.plist(p_new)))
-      rec(h2, new)
+      if 'H' not in name:   # histories end with the huge client (its gradients make later optimizer statistics overflow)
+        rec(h2, new)
   rec([], init)
   return {'evals': stats['transitions'], 'states': stats['states'], 'transitions': stats['transitions'],
           'traces': stats['transitions'], 'outcomes': sorted(outs), 'nontrivial': True,
